@@ -1,5 +1,6 @@
 import UF.Proofs.StorageMain
 import UF.Proofs.StorageRef
+import UF.Proofs.StorageDemo
 /-
   C11 -- every scanned rule can be retrieved by its index from any backing store.
 
@@ -143,5 +144,53 @@ theorem c11_backing (io : IO) (parse : Parser) (lists : List RList) (flags flags
     cases findList lists (unpack k).1.toInt with
     | none => rfl
     | some l => exact retrieve_file_irrel io parse l _ _ _
+
+/-- `strings.TrimSpace` is idempotent: a rule text (a trimmed line) is a fixed point, which is what makes
+    the parser assumption `TrimsFirst` coherent. -/
+theorem trimSpace_idempotent (s : Bytes) : trimSpace (trimSpace s) = trimSpace s := trimSpace_idem s
+
+/-- Duplicate ids: `NewRuleStorage` succeeds exactly when the ids are pairwise distinct ... -/
+theorem c11_dup_ok (lists : List RList) (st : RuleStorage) (h : newRuleStorage lists = some st) :
+    lists.Pairwise (fun a b => a.id ≠ b.id) ∧ st.lists = lists ∧ st.cache = [] := by
+  unfold newRuleStorage at h
+  split at h
+  · cases h
+  · rename_i hd
+    simp only [Option.some.injEq] at h
+    subst h
+    exact ⟨(hasDupIds_false (by simpa using hd)).2, rfl, rfl⟩
+
+/-- ... and fails when two lists share an id. -/
+theorem c11_dup_err (lists : List RList) (h : newRuleStorage lists = none) :
+    ¬ lists.Pairwise (fun a b => a.id ≠ b.id) := by
+  unfold newRuleStorage at h
+  split at h
+  · rename_i hd
+    rcases hasDupIds_true hd with h' | ⟨_, _, h'⟩
+    · exact h'
+    · simp at h'
+  · cases h
+
+/-! ### Non-vacuity: the hypotheses are satisfiable by a concrete, non-trivial instance
+    (`demoParser`, `demoLists` in UF/Proofs/StorageDemo.lean: ids min/max int32, CRLF, padding, a
+    comment, an invalid rule, no final newline, String- and File-backed, IgnoreCosmetic on/off). -/
+
+example : TrimsFirst demoParser := demoParser_trimsFirst
+example : ListsOK demoLists := demo_listsOK
+example : (⟨.cosmetic, lit "##b", -2147483648⟩, pack (BitVec.ofInt 32 (-2147483648)) (BitVec.ofNat 32 12)) ∈
+    storageScan demoParser demoLists := by rw [demo_storageScan]; simp
+/-- `c11` applied to the instance: retrieving index (min int32, 12) from a new storage gives `##b`. -/
+example (io : IO) : (retrieveRule io demoParser ⟨demoLists, []⟩
+      (pack (BitVec.ofInt 32 (-2147483648)) (BitVec.ofNat 32 12))).1 = .rule ⟨.cosmetic, lit "##b", -2147483648⟩ :=
+  c11 io demoParser demoParser_trimsFirst ⟨demoLists, []⟩ demo_listsOK
+    (by intro k v hk; simp [List.lookup] at hk) _ _ (by rw [demo_storageScan]; simp)
+/-- pack on the extreme ids -/
+example : (pack (BitVec.ofInt 32 (-2147483648)) (BitVec.ofNat 32 12)).toInt = -9223372036854775796 ∧
+    (pack (BitVec.ofInt 32 (-1)) (BitVec.ofInt 32 (-1))).toInt = -1 ∧
+    (pack (BitVec.ofInt 32 2147483647) (BitVec.ofNat 32 7)).toInt = 9223372032559808519 := by decide
+/-- trimming: NBSP / ideographic space / CRLF go, a cut sequence and U+200B (not White_Space) stay -/
+example : trimSpace ([0xC2, 0xA0] ++ lit " ||a^" ++ [0xE3, 0x80, 0x80, 0x0D, 0x0A]) = lit "||a^" ∧
+    trimSpace (lit "||a^" ++ [0xE2, 0x80, 0x8B, 0x20]) = lit "||a^" ++ [0xE2, 0x80, 0x8B] ∧
+    trimSpace (lit " x" ++ [0xC2, 0x0A]) = lit "x" ++ [0xC2] := by decide +kernel
 
 end UF.Storage
